@@ -4,6 +4,7 @@ QMOD = "optimum/quanto/nn/qmodule.py"
 CAL = "optimum/quanto/calibrate.py"
 AWQ = "optimum/quanto/tensor/qbits/awq/packed.py"
 OPS = "optimum/quanto/tensor/qbytes_ops.py"
+QBOPS = "optimum/quanto/tensor/qbits/qbits_ops.py"
 
 
 def M(id, prop, kind, edits, rule=None):
@@ -112,7 +113,7 @@ MUTANTS = [
     M("c14-affine-extent-guard-dropped", "C14", "break", [("optimum/quanto/tensor/quantizers/affine.py", "scale.ndim != base.ndim or scale.shape[axis] != base.shape[axis] or scale.numel() != base.shape[axis]", "scale.ndim != base.ndim or scale.numel() != base.shape[axis]")], "C14.R1"),
     M("c14-affine-zeropoint-guard-dropped", "C14", "break", [("optimum/quanto/tensor/quantizers/affine.py", "            if zeropoint.shape != scale.shape:\n                raise ValueError(\"The zeropoint must have the same shape as the scale\")\n", "")], "C14.R1"),
     M("c14-affine-guard-raises-runtimeerror", "C14", "break", [("optimum/quanto/tensor/quantizers/affine.py", "                raise ValueError(\"The zeropoint must have the same shape as the scale\")", "                raise RuntimeError(\"The zeropoint must have the same shape as the scale\")")], "C14.R2"),
-    M("c06-tocopy-int-dtype-to-scale-again", "C06", "break", [(OPS, "    if dtype is not None and not dtype.is_floating_point:\n        # The scale cannot be converted to an integer type: convert the dequantized values\n        return op(t.dequantize(), dtype=dtype, **kwargs)\n", "")], "C06.R4"),
+    M("c06-tocopy-int-dtype-to-scale-again", "C06", "break", [(OPS, "    if dtype is not None and (not dtype.is_floating_point or dtype.itemsize == 1):\n        # The scale cannot be converted to an integer or 8-bit float type: convert the dequantized values\n        return op(t.dequantize(), dtype=dtype, **kwargs)\n", "")], "C06.R4"),
     M("c06-tocopy-memory-format-to-scale-again", "C06", "break", [(OPS, "    out_scale = op(t._scale, dtype=dtype, **scale_kwargs)", "    out_scale = op(t._scale, dtype=dtype, **kwargs)")], "C06.R4"),
     M("c06-clone-memory-format-to-scale-again", "C06", "break", [(OPS, "    out_scale = op(t._scale)\n    return QBytesTensor(t.qtype, t.axis, t.size(), out_stride, out_data, out_scale)", "    out_scale = op(t._scale, memory_format=memory_format)\n    return QBytesTensor(t.qtype, t.axis, t.size(), out_stride, out_data, out_scale)")], "C06.R4"),
     M("c05-linear-rank1-weight-again", "C05", "break", [("optimum/quanto/tensor/qtensor_func.py", "(other.ndim != 2 or other.axis not in (None, 0))", "(other.axis is not None and (other.ndim != 2 or other.axis != 0))")], "C05.R14"),
@@ -122,4 +123,11 @@ MUTANTS = [
     M("c05-div-rejects-rounding-mode-again", "C05", "break", [(OPS, "def div(op, input, other, rounding_mode=None):\n    if not is_scalar(other) or rounding_mode is not None:", "def div(op, input, other):\n    rounding_mode = None\n    if not is_scalar(other) or rounding_mode is not None:")], "C05.R19"),
     M("c05-refactor-div-kwargs", "C05", "refactor", [(OPS, "def div(op, input, other, rounding_mode=None):\n    if not is_scalar(other) or rounding_mode is not None:", "def div(op, input, other, **kwargs):\n    if not is_scalar(other) or kwargs.get(\"rounding_mode\") is not None:"),
                                                      (OPS, "        return qfallback(op, input, other, rounding_mode=rounding_mode)", "        return qfallback(op, input, other, **kwargs)")]),
+    # ---- findings of the second defect hunt (F58-F62) re-introduced
+    M("c05-view-dtype-on-codes-again", "C05", "break", [(OPS, "    if len(shape) == 1 and isinstance(shape[0], torch.dtype):\n        # view(dtype) reinterprets the bytes of a tensor: it cannot be applied to the codes\n        return qfallback(op, input, *shape)\n", "")], "C05.R20"),
+    M("c05-copy-unbroadcast-source-again", "C05", "break", [(OPS, "SymmetricQuantizer.apply(src.expand(dest.size()), dest.qtype, dest.axis, dest._scale)", "SymmetricQuantizer.apply(src, dest.qtype, dest.axis, dest._scale)")], "C05.R18"),
+    M("c05-refactor-copy-expand-as", "C05", "refactor", [(OPS, "SymmetricQuantizer.apply(src.expand(dest.size()), dest.qtype, dest.axis, dest._scale)", "SymmetricQuantizer.apply(src.expand(dest.shape), dest.qtype, dest.axis, dest._scale)")]),
+    M("c06-tocopy-float8-to-scale-again", "C06", "break", [(OPS, "(not dtype.is_floating_point or dtype.itemsize == 1)", "(not dtype.is_floating_point)")], "C06.R4"),
+    M("c06-qbits-tocopy-memory-format-to-scale-again", "C06", "break", [(QBOPS, "    scale = op(t._scale, dtype=dtype, device=device, **scale_kwargs)", "    scale = op(t._scale, dtype=dtype, device=device, **kwargs)")], "C06.R4"),
+    M("c15-awq-zeropoint-narrow-again", "C15", "break", [("optimum/quanto/tensor/qbits/awq/qbits.py", "(-zeropoint.to(scale.dtype) * scale)", "(-zeropoint * scale)")], "C15.R5"),
 ]
